@@ -29,6 +29,7 @@ from rtc import ormharness as H
 FN = "orm/identity.py::_WeakInstanceDict+Session"
 OPS = ["query", "query_yield", "populate", "get1", "get2", "expunge1", "readd1", "modify1", "pk1to3", "flush", "commit", "rollback",
        "merge1", "merge_detached1", "refresh1", "expire1", "delete1", "dropref_gc", "new4"]
+QUICK_L4_FIRST = ["delete1", "pk1to3", "expunge1", "modify1"]
 _G = dict(engine=None)
 
 
@@ -268,6 +269,12 @@ def bounded(run, tier, seed):
     t0 = time.time()
     lengths = lengths_for(tier)
     joblist = H.jobs(len(OPS), lengths, min_jobs=100)
+    extra = ""
+    if tier == "quick":
+        # one level deeper where it pays: histories of length 4 that start by vacating / altering row 1
+        first = [OPS.index(o) for o in QUICK_L4_FIRST]
+        joblist += [j for j in H.jobs(len(OPS), (4,), min_jobs=100) if j["prefix"][0] in first]
+        extra = f" plus ALL histories of length 4 whose first operation is one of {QUICK_L4_FIRST}"
     if seed:
         import random
         random.Random(seed).shuffle(joblist)
@@ -288,7 +295,7 @@ def bounded(run, tier, seed):
                                                               reason="bounded run-time contract check (C34_bounded)"))
     samples = sorted(agg.get("samples", []), key=lambda x: (-x["add_conflicts"], -len(x["ops"]), x["ops"]))
     blk = dict(
-        scope=f"one Session on SQLite :memory:, two rows (+ up to two added), the application starts holding row 1; ALL histories of length in {list(lengths)} over the "
+        scope=f"one Session on SQLite :memory:, two rows (+ up to two added), the application starts holding row 1; ALL histories of length in {list(lengths)}{extra} over the "
               f"{len(OPS)} operations {OPS}; clauses A, B after every operation, C / D / E on every load / get / add",
         evaluations=agg["evaluations"], distinct_nontrivial=agg["nontrivial"],
         rule="every history of the scope is enumerated once; non-trivial = the history performed at least one load through the identity map, a get() answered "
